@@ -56,6 +56,8 @@ def run(ctx):
         # spec -> code: sizeof against the builds and parses of the sessions TLC explores on the model's universe (design level:
         # theorems Z-total / Z-exact of MC_CAM; negative control: the known hole of the sizing wrappers over StopIf)
         speccode.negative_control(ctx)
+        if not quick:
+            speccode.explore(ctx, focus="all", emit=False)      # the whole thorough universe, design level only
         uprogs, ukw, sessions, _ = speccode.explore(ctx, focus="all", part=speccode.part_of(ctx, 8 if quick else 16))
         def on(camp, prog, con, s, idx):
             if not idx["build"]:
